@@ -9,3 +9,9 @@ mod sym;
 pub(crate) mod twins;
 #[cfg(kani)]
 pub(crate) mod alg;
+#[cfg(kani)]
+pub(crate) mod tiny;
+#[cfg(kani)]
+pub(crate) mod coll;
+#[cfg(kani)]
+pub(crate) mod coll2;
